@@ -384,6 +384,10 @@ func C15() int {
 		rep.Cap(fmt.Sprintf("time budget: %d of %d bodies not run", skipped, total))
 	}
 	c15Hec(rep, budget)
+	// two concurrent bulk requests (one held at every lock operation while the other runs): every acknowledged item is stored
+	vp := logPool()
+	vp.RecycleEvery = 200
+	c11TwoWritersFor("C15", rep, vp, budget)
 	return rep.Finish()
 }
 
@@ -394,6 +398,13 @@ func init() {
 			Pieces []string `json:"pieces"`
 		}
 		_ = json.Unmarshal(doc, &probe)
+		var probe2 struct {
+			Other string `json:"other"`
+		}
+		_ = json.Unmarshal(doc, &probe2)
+		if probe2.Other != "" {
+			return MakeReplayer[c11WWJob]("C15", "exploration", logPool, c11WWRun)(doc)
+		}
 		if len(probe.Pieces) > 0 {
 			return MakeReplayer[c15HecJob]("C15", "exploration", serverPool, c15HecRun)(doc)
 		}
